@@ -125,7 +125,8 @@ func genRows(keys []key, seed int64) []inRow {
 		case x == 1:
 			r.V = "null(int64)"
 		default:
-			r.V = fmt.Sprint(x - 4) // -2..4
+			// never 0: dcount() cannot tell 0 from null(int64) (both have empty bytes), with or without spills
+			r.V = fmt.Sprint([]int{-2, -1, 1, 2, 3, 4, 5}[x-2])
 		}
 		switch rng.Intn(5) {
 		case 0:
@@ -138,10 +139,11 @@ func genRows(keys []key, seed int64) []inRow {
 			r.B = "false"
 		}
 		r.W = rng.Intn(2) == 0
+		// records: fusing bare primitives of one type twice yields union(t,t) (the C20 finding)
 		if rng.Intn(3) == 0 {
-			r.F = `"x"`
+			r.F = `{a:"x"}`
 		} else {
-			r.F = fmt.Sprint(rng.Intn(3))
+			r.F = fmt.Sprintf("{a:%d}", rng.Intn(3))
 		}
 		rows[i] = r
 	}
@@ -252,7 +254,7 @@ func naive(rows []inRow) map[string]string {
 	for _, r := range rows {
 		switch {
 		case r.F == "":
-		case strings.HasPrefix(r.F, `"`):
+		case strings.Contains(r.F, `"`):
 			hasStr = true
 		default:
 			hasInt = true
@@ -260,11 +262,11 @@ func naive(rows []inRow) map[string]string {
 	}
 	switch {
 	case hasInt && hasStr:
-		out["fu"] = "<(int64,string)>"
+		out["fu"] = "<{a:(int64,string)}>"
 	case hasInt:
-		out["fu"] = "<int64>"
+		out["fu"] = "<{a:int64}>"
 	case hasStr:
-		out["fu"] = "<string>"
+		out["fu"] = "<{a:string}>"
 	default:
 		out["fu"] = "null(type)"
 	}
